@@ -278,6 +278,8 @@ class Driver:
                     st['result'] = ('exception', '%s: %s' % (type(e).__name__, str(e)[:80]))
             elif model == 'fnf':
                 fut = ep.fire_and_forget(req)
+                # recorded by a done-callback, i.e. at the first opportunity application code gets to act on it
+                fut.add_done_callback(lambda f: world.log('sent_future_resolved', who=who, iid=iid))
                 try:
                     await asyncio.wait_for(asyncio.shield(fut), self.horizon)
                     st['result'] = ('sent',)
